@@ -64,8 +64,16 @@ Definition hreq_ok (r : hreq) : Prop :=
 
 (* the response the specification demands for a dispatched request, given
    what the handler returned *)
+(* function code of an exception response: the request's function code with
+   the error bit (0x80) set. For every function code below 0x80 (in particular
+   all supported ones) this is fc + 128; a request whose function code already
+   has the bit set keeps its code. *)
+Definition err_fc (fc : N) : N := N.lor 128 fc.
+
+Definition spec_exception (p : pdu) (c : N) : pdu := mkpdu (p_unit p) (err_fc (p_fc p)) [c].
+
 Definition spec_response (p : pdu) (r : hreq) (res : hres) : pdu :=
-  let exc c := mkpdu (p_unit p) (p_fc p + 128) [c] in
+  let exc c := spec_exception p c in
   match r_err res with
   | HModbus c => exc c
   | HProtocol | HOther => exc 4
